@@ -19,7 +19,7 @@ esac
 if [ "${CHECK_SUITE:-0}" = "1" ]; then
   (cd "$W/repo" && go test -vet=off -count=1 ./... 2>&1 | grep -v "^ok\|no test files" | head -20)
 fi
-cd /verif/harness
+cd "${HARNESS_DIR:-/verif/harness}"
 sed "s#=> /repo#=> $W/repo#" go.mod > "$W/go.mod"; cp go.sum "$W/go.sum"
 BIN="$W/vcheck"
 RACE=""
